@@ -15,10 +15,14 @@ mod de;
 mod derived;
 #[path = "c16_parts/lazy.rs"]
 mod lazy;
+#[path = "c16_parts/more.rs"]
+mod more;
 #[path = "c16_parts/regbuf.rs"]
 mod regbuf;
 #[path = "c16_parts/shape.rs"]
 mod shape;
+#[path = "c16_parts/stdtypes.rs"]
+mod stdtypes;
 #[path = "c16_parts/val.rs"]
 mod val;
 
@@ -36,8 +40,8 @@ use std::sync::Arc;
 use val::*;
 
 // ------------------------------------------------------------------------------------ generators
-const NAMES: [&str; 10] = ["a", "b", "c", "type", "id", "f0", "value", "A", "x_y", "none"];
-const VNAMES: [&str; 8] = ["A", "B", "C", "Dd", "none", "a", "Some", "type"];
+const NAMES: [&str; 13] = ["a", "b", "c", "type", "id", "f0", "value", "A", "x_y", "none", "a_field_name_longer_than_twenty_two_bytes", "naïve", "键"];
+const VNAMES: [&str; 11] = ["A", "B", "C", "Dd", "none", "a", "Some", "type", "AVariantNameLongerThanTwentyTwoBytes", "Ünï", "0"];
 const TNAMES: [&str; 4] = ["T", "Point", "E", "Wrapper"];
 
 fn gen_leaf(r: &mut Rng) -> Shape {
@@ -105,13 +109,16 @@ fn gen_fields(r: &mut Rng, depth: u32, max: u64) -> Vec<(&'static str, Shape)> {
 
 fn gen_key_shape(r: &mut Rng, depth: u32) -> Shape {
     if r.chance(4, 5) || depth == 0 {
-        match r.below(8) {
+        match r.below(10) {
             0 => Shape::Bool,
             1 => Shape::U8,
             2 => Shape::I64,
             3 => Shape::U64,
             4 => Shape::Char,
             5 => Shape::I16,
+            // float keys (no NaN, no two keys of one numeric value: see `gen_data`)
+            8 => Shape::F64,
+            9 => Shape::F32,
             6 => {
                 let n = 1 + r.below(3) as usize;
                 Shape::Enum("K", distinct_names(r, &VNAMES, n).into_iter().map(|v| (v, VShape::Unit)).collect())
@@ -218,7 +225,11 @@ fn gen_int(r: &mut Rng, lo: i128, hi: i128) -> i128 {
 
 fn gen_f32(r: &mut Rng) -> u32 {
     let b = match r.below(4) {
-        0 => *r.pick(&[0u32, 0x8000_0000, 0x3f80_0000, 0xbf80_0000, 1, 0x007f_ffff, 0x0080_0000, 0x7f7f_ffff, 0x7f80_0000, 0xff80_0000, 0x7fc0_0000, 0x3dcc_cccd, 0x8000_0001, 0x0040_0000]),
+        0 => *r.pick(&[
+            0u32, 0x8000_0000, 0x3f80_0000, 0xbf80_0000, 1, 0x007f_ffff, 0x0080_0000, 0x7f7f_ffff, 0x7f80_0000, 0xff80_0000, 0x7fc0_0000, 0x3dcc_cccd, 0x8000_0001, 0x0040_0000,
+            // NaNs with sign and payload (the conversion to f64 keeps both)
+            0xffc0_0000, 0x7fc0_0001, 0xffc0_0001, 0x7fff_ffff, 0xffff_ffff, 0x7fe0_0000, 0x7fd5_5555, 0xffea_aaaa,
+        ]),
         1 => r.below(0x0080_0000) as u32 | ((r.below(2) as u32) << 31), // subnormals
         _ => r.next() as u32,
     };
@@ -231,10 +242,14 @@ fn gen_f32(r: &mut Rng) -> u32 {
 }
 
 fn gen_f64(r: &mut Rng) -> u64 {
-    match r.below(4) {
+    match r.below(5) {
+        4 => more::tie_f64(r),
         0 => *r.pick(&[
             0u64, 1 << 63, 0x3ff0_0000_0000_0000, 0xbff0_0000_0000_0000, 1, 0x000f_ffff_ffff_ffff, 0x0010_0000_0000_0000, 0x7fef_ffff_ffff_ffff, 0x7ff0_0000_0000_0000,
             0xfff0_0000_0000_0000, 0x7ff8_0000_0000_0000, 0x3fb9_9999_9999_999a, 0x4340_0000_0000_0001, 0x43e0_0000_0000_0000, 0x7ff0_0000_0000_0001, 0xfff8_0000_0000_1234,
+            0xfff8_0000_0000_0000, 0x7fff_ffff_ffff_ffff, 0xffff_ffff_ffff_ffff, 0x7ff8_0000_0000_0001, 0x7ffc_0000_0000_0000,
+            // exact ties between two shortest digit strings (900719925474099.25, 562949953421312.75, …)
+            0x4309_9999_9999_999a, 0x4300_0000_0000_0003, 0x42f0_0000_0000_0001,
         ]),
         1 => f64::to_bits((r.below(2001) as f64 - 1000.0) / 8.0),
         2 => f64::to_bits(f64::from_bits(r.next()) as f32 as f64),
@@ -276,7 +291,14 @@ fn gen_data(r: &mut Rng, s: &Shape, depth: u32) -> Dyn {
             let mut seen: Vec<String> = vec![];
             for _ in 0..r.below(4) {
                 let key = gen_data(r, k, depth);
-                let kt = key.to_text(true);
+                // float keys: NaN is not a usable key, -0.0 and 0.0 are one key
+                let kt = match &key {
+                    Dyn::F64(b) if f64::from_bits(*b).is_nan() => continue,
+                    Dyn::F32(b) if f32::from_bits(*b).is_nan() => continue,
+                    Dyn::F64(b) => format!("n{:?}", f64::from_bits(*b) + 0.0),
+                    Dyn::F32(b) => format!("n{:?}", f32::from_bits(*b) as f64 + 0.0),
+                    _ => key.to_text(true),
+                };
                 if seen.contains(&kt) {
                     continue;
                 }
@@ -719,7 +741,12 @@ fn field_check_inner(v: &Value, out: &Value) -> Result<(), String> {
 }
 
 // ------------------------------------------------------------------------------------ json stream
-const JSON_MODES: [&str; 11] = ["tojson", "tojson_true", "tojson_kw3", "tojson_0", "auto_json", "auto_js", "tojson_in_html", "sj_string", "sj_pretty", "tojson_expr", "auto_write"];
+const JSON_MODES: [&str; 20] = [
+    "tojson", "tojson_true", "tojson_kw3", "tojson_0", "auto_json", "auto_js", "tojson_in_html", "sj_string", "sj_pretty", "tojson_expr", "auto_write",
+    // further entry points: the escape filter under JSON auto-escaping, other template names that select it, a
+    // user formatter that delegates to the default one, an auto-escape callback, the remaining indent spellings
+    "auto_e", "auto_escape_block", "auto_yaml", "auto_json_j2", "auto_fmt", "auto_cb", "tojson_false", "tojson_kwtrue", "tojson_8",
+];
 
 fn gen_key_vd(r: &mut Rng) -> VD {
     match r.below(12) {
@@ -828,7 +855,23 @@ fn render_json(env: &Environment, mode: &str, v: &Value) -> Result<String, minij
         env2.get_template("data.json")?.render_captured_to(context! { v => v.clone() }, &mut buf)?;
         return String::from_utf8(buf).map_err(|e| minijinja::Error::new(minijinja::ErrorKind::BadSerialization, e.to_string()));
     }
+    if mode == "auto_fmt" || mode == "auto_cb" {
+        let mut env2 = Environment::new();
+        if mode == "auto_fmt" {
+            env2.set_formatter(|out, state, value| minijinja::escape_formatter(out, state, value));
+            return env2.render_named_str("t.json", "{{ v }}", context! { v => v.clone() });
+        }
+        env2.set_auto_escape_callback(|_| minijinja::AutoEscape::Json);
+        return env2.render_named_str("t.txt", "{{ v }}", context! { v => v.clone() });
+    }
     let (name, src) = match mode {
+        "auto_e" => ("t.json", "{{ v|e }}"),
+        "auto_escape_block" => ("t.txt", "{% autoescape 'json' %}{{ v|escape }}{% endautoescape %}"),
+        "auto_yaml" => ("t.yaml", "{{ v }}"),
+        "auto_json_j2" => ("t.json.j2", "{{ v }}"),
+        "tojson_false" => ("t.txt", "{{ v|tojson(false) }}"),
+        "tojson_kwtrue" => ("t.txt", "{{ v|tojson(indent=true) }}"),
+        "tojson_8" => ("t.txt", "{{ v|tojson(8) }}"),
         "tojson" => ("t.txt", "{{ v|tojson }}"),
         "tojson_true" => ("t.txt", "{{ v|tojson(true) }}"),
         "tojson_kw3" => ("t.txt", "{{ v|tojson(indent=3) }}"),
@@ -1138,13 +1181,19 @@ fn main() {
             let thorough = args.get(2).map(|s| s == "thorough").unwrap_or(false);
             let seed = seed_from_env();
             let r = &mut Rng::new(seed);
-            let (n_rt, n_x, n_der, n_json, n_str, n_lazy) = if thorough { (200_000, 40_000, 2_000, 60_000, 60_000, 30_000) } else { (5_000, 1_500, 60, 4_000, 10_000, 1_500) };
+            let (n_rt, n_x, n_der, n_json, n_str, n_lazy) = if thorough { (600_000, 120_000, 4_000, 180_000, 150_000, 60_000) } else { (5_000, 1_500, 60, 4_000, 10_000, 1_500) };
             // fixed anchor shapes first (every constructor once, hand-picked edge values)
             for line in ANCHORS {
                 let (s, d) = line.split_once(" ; ").unwrap();
                 let shape = parse_shape(&mut Toks::new(s)).unwrap();
                 let data = parse_dyn(&mut Toks::new(d)).unwrap();
                 writeln!(out, "rt {} ; {}\t{}", shape.to_text(), data.to_text(false), run_rt(&shape, &data)).unwrap();
+            }
+            // wide composites (the maps' look-up switches strategy above 12 entries; long sequences)
+            for (shape, data) in wide_cases() {
+                writeln!(out, "rt {} ; {}\t{}", shape.to_text(), data.to_text(false), run_rt(&shape, &data)).unwrap();
+                writeln!(out, "buf {} ; {}\t{}", shape.to_text(), data.to_text(false), more::run_buf(&shape, &data)).unwrap();
+                writeln!(out, "sjson tojson {} ; {}\t{}", shape.to_text(), data.to_text(false), more::run_sjson(&|v| render_json(&env, "tojson", v), &shape, &data)).unwrap();
             }
             for i in 0..n_rt {
                 let depth = 1 + (i % 4) as u32;
@@ -1301,6 +1350,13 @@ fn main() {
                     }
                 }
             }
+            // fields that are ignored are still walked (`deserialize_ignored_any` = `deserialize_any`)
+            for line in LDE_ANCHORS {
+                let (v, sh) = line.split_once(" ; ").unwrap();
+                let vd = parse_vd(&mut Toks::new(v)).unwrap();
+                let shape = parse_shape(&mut Toks::new(sh)).unwrap();
+                writeln!(out, "lde {} ; {}\t{}", vd.to_text(), shape.to_text(), run_lde(&vd, &shape)).unwrap();
+            }
             let tenv = tpl_env();
             for idx in 0..TPL_EXPRS.len() {
                 for mode in TPL_MODES {
@@ -1322,6 +1378,91 @@ fn main() {
                     writeln!(out, "ser {}\t{}", vd.to_text(), run_ser(&vd)).unwrap();
                 }
             }
+            // ---- second generation streams (c16_parts/more.rs)
+            let (n_buf, n_arg, n_vv) = if thorough { (120_000, 96_000, 120_000) } else { (1_200, 1_800, 2_500) };
+            let aenv = more::arg_env();
+            // serde's buffering read path and `Serde<T>` arguments: the anchors, then random shapes
+            for line in ANCHORS {
+                let (s, d) = line.split_once(" ; ").unwrap();
+                let shape = parse_shape(&mut Toks::new(s)).unwrap();
+                let data = parse_dyn(&mut Toks::new(d)).unwrap();
+                writeln!(out, "buf {} ; {}\t{}", shape.to_text(), data.to_text(false), more::run_buf(&shape, &data)).unwrap();
+                for form in ["fn", "opt", "literal"] {
+                    writeln!(out, "arg {} {} ; {}\t{}", form, shape.to_text(), data.to_text(false), more::run_arg(&aenv, form, &shape, &data)).unwrap();
+                }
+            }
+            for i in 0..n_buf {
+                let depth = 1 + (i % 4) as u32;
+                let shape = gen_shape(r, depth);
+                let data = gen_data(r, &shape, depth);
+                writeln!(out, "buf {} ; {}\t{}", shape.to_text(), data.to_text(false), more::run_buf(&shape, &data)).unwrap();
+            }
+            for i in 0..n_arg {
+                let depth = 1 + (i % 3) as u32;
+                let shape = gen_shape(r, depth);
+                let data = gen_data(r, &shape, depth);
+                let form = more::ARG_FORMS[i % more::ARG_FORMS.len()];
+                writeln!(out, "arg {} {} ; {}\t{}", form, shape.to_text(), data.to_text(false), more::run_arg(&aenv, form, &shape, &data)).unwrap();
+            }
+            // serialised data printed as JSON against serde_json's own JSON of the same data
+            let sj_modes = ["tojson", "tojson_kw3", "auto_json", "auto_e"];
+            for (i, line) in ANCHORS.iter().enumerate() {
+                let (s, d) = line.split_once(" ; ").unwrap();
+                let shape = parse_shape(&mut Toks::new(s)).unwrap();
+                let data = parse_dyn(&mut Toks::new(d)).unwrap();
+                let mode = sj_modes[i % sj_modes.len()];
+                writeln!(out, "sjson {} {} ; {}\t{}", mode, shape.to_text(), data.to_text(false), more::run_sjson(&|v| render_json(&env, mode, v), &shape, &data)).unwrap();
+            }
+            for i in 0..n_buf {
+                let depth = 1 + (i % 4) as u32;
+                let shape = gen_shape(r, depth);
+                let data = gen_data(r, &shape, depth);
+                let mode = sj_modes[i % sj_modes.len()];
+                writeln!(out, "sjson {} {} ; {}\t{}", mode, shape.to_text(), data.to_text(false), more::run_sjson(&|v| render_json(&env, mode, v), &shape, &data)).unwrap();
+            }
+            // `Value` as the target of a deserialisation
+            for desc in VV_ANCHORS {
+                let vd = parse_vd(&mut Toks::new(desc)).unwrap();
+                for mode in more::VV_MODES {
+                    writeln!(out, "vv {} {}\t{}", mode, vd.to_text(), more::run_vv(mode, &vd)).unwrap();
+                }
+            }
+            for i in 0..n_vv {
+                let vd = gen_vd(r, 1 + (i % 3) as u32);
+                let mode = more::VV_MODES[i % more::VV_MODES.len()];
+                writeln!(out, "vv {} {}\t{}", mode, vd.to_text(), more::run_vv(mode, &vd)).unwrap();
+            }
+            // serde's own impls for std types; the primitive deserializers of serde::de::value into `Value`
+            for ty in stdtypes::TYPES {
+                for _ in 0..n_der {
+                    let s = r.next() % 1_000_000_007;
+                    writeln!(out, "derived {} {}\t{}", ty, s, stdtypes::run(ty, s)).unwrap();
+                }
+            }
+            for idx in 0..stdtypes::PRIM_COUNT {
+                writeln!(out, "vv prim {}\t{}", idx, stdtypes::run_prim(idx)).unwrap();
+            }
+            // the post-processing of tojson: every 1- and 2-byte ASCII prefix x distance to the first special byte
+            let pads: Vec<usize> = if thorough { (0..=17).collect() } else { vec![0, 1, 7] };
+            let pads_txt = pads.iter().map(|p| p.to_string()).collect::<Vec<_>>().join(",");
+            writeln!(out, "pp e {}\t{}", pads_txt, more::run_pp(None, &pads)).unwrap();
+            for b1 in 0u8..128 {
+                writeln!(out, "pp {} {}\t{}", b1, pads_txt, more::run_pp(Some(b1), &pads)).unwrap();
+            }
+            // … and every 1-byte prefix with the first special byte at every distance up to 70 (word / vector widths)
+            let long: Vec<usize> = (0..=(if thorough { 130 } else { 70 })).collect();
+            let long_txt = long.iter().map(|p| p.to_string()).collect::<Vec<_>>().join(",");
+            for b1 in 0u8..128 {
+                writeln!(out, "pp {}. {}\t{}", b1, long_txt, more::run_pp_one(b1, &long)).unwrap();
+            }
+            // threads on which many values have been embedded before
+            let mut warms: Vec<u64> = vec![0, 1, 254, 255, 256, 257, 65_534, 65_535, 65_536, 65_537, 70_001, 131_073];
+            if thorough {
+                warms.extend([16_777_215, 16_777_217]);
+            }
+            for n in warms {
+                writeln!(out, "warm {}\t{}", n, more::run_warm(n)).unwrap();
+            }
         }
         Some("one") => {
             let stream = args.get(2).map(|s| s.as_str()).unwrap_or("");
@@ -1340,6 +1481,7 @@ fn main() {
                     let shape2 = parse_shape(&mut Toks::new(parts[2])).unwrap();
                     run_cross(&shape, &data, &shape2)
                 }
+                "derived" if stdtypes::TYPES.contains(&args[3].as_str()) => stdtypes::run(&args[3], args[4].parse().unwrap()),
                 "derived" => derived::run(&args[3], args[4].parse().unwrap()),
                 "derivedx" => derived::run_x(&args[3], args[4].parse().unwrap()),
                 "reg" => {
@@ -1358,6 +1500,32 @@ fn main() {
                 }
                 "tpl" => run_tpl(&tpl_env(), &args[3], args[4].parse().unwrap()),
                 "tplraw" => run_tplraw(&tpl_env(), args[3].parse().unwrap()),
+                "buf" => {
+                    let (s, d) = rest.split_once(" ; ").expect("buf <shape> ; <data>");
+                    more::run_buf(&parse_shape(&mut Toks::new(s)).unwrap(), &parse_dyn(&mut Toks::new(d)).unwrap())
+                }
+                "arg" => {
+                    let body = args[4..].join(" ");
+                    let (s, d) = body.split_once(" ; ").expect("arg <form> <shape> ; <data>");
+                    more::run_arg(&more::arg_env(), &args[3], &parse_shape(&mut Toks::new(s)).unwrap(), &parse_dyn(&mut Toks::new(d)).unwrap())
+                }
+                "vv" if args[3] == "prim" => stdtypes::run_prim(args[4].parse().unwrap()),
+                "vv" => more::run_vv(&args[3], &parse_vd(&mut Toks::new(&args[4..].join(" "))).unwrap()),
+                "pp" => {
+                    let pads: Vec<usize> = args[4].split(',').map(|x| x.parse().unwrap()).collect();
+                    if let Some(b) = args[3].strip_suffix('.') {
+                        more::run_pp_one(b.parse().unwrap(), &pads)
+                    } else {
+                        more::run_pp(if args[3] == "e" { None } else { Some(args[3].parse().unwrap()) }, &pads)
+                    }
+                }
+                "warm" => more::run_warm(args[3].parse().unwrap()),
+                "sjson" => {
+                    let body = args[4..].join(" ");
+                    let (s, d) = body.split_once(" ; ").expect("sjson <mode> <shape> ; <data>");
+                    let mode = args[3].clone();
+                    more::run_sjson(&|v| render_json(&env, &mode, v), &parse_shape(&mut Toks::new(s)).unwrap(), &parse_dyn(&mut Toks::new(d)).unwrap())
+                }
                 _ => "bad-case".into(),
             };
             writeln!(out, "{} {}\t{}", stream, rest, res).unwrap();
@@ -1367,6 +1535,23 @@ fn main() {
             std::process::exit(2);
         }
     }
+}
+
+fn wide_cases() -> Vec<(Shape, Dyn)> {
+    let names: Vec<&'static str> = (0..14).map(|i| intern(&format!("f{i:02}"))).collect();
+    let fields: Vec<(&'static str, Shape)> = names.iter().enumerate().map(|(i, n)| (*n, if i % 3 == 0 { Shape::Opt(Box::new(Shape::U8)) } else if i % 3 == 1 { Shape::Str } else { Shape::I64 })).collect();
+    let vals: Vec<Dyn> = (0..14).map(|i| if i % 3 == 0 { if i % 2 == 0 { Dyn::None } else { Dyn::Some(Box::new(Dyn::Int(i as i128))) } } else if i % 3 == 1 { Dyn::Str(format!("v{i}")) } else { Dyn::Int(-(i as i128)) }).collect();
+    vec![
+        (Shape::Struct("T", fields.clone()), Dyn::List(vals.clone())),
+        (Shape::Enum("E", vec![("A", VShape::Unit), ("Wide", VShape::Struct(fields.clone()))]), Dyn::Variant(1, Box::new(Dyn::List(vals.clone())))),
+        (Shape::Enum("E", vec![("Wide", VShape::Tuple(fields.iter().map(|f| f.1.clone()).collect()))]), Dyn::Variant(0, Box::new(Dyn::List(vals.clone())))),
+        (Shape::Map(Box::new(Shape::Str), Box::new(Shape::I64)), Dyn::Map((0..20).map(|i| (Dyn::Str(format!("key{:02}", (i * 7) % 20)), Dyn::Int(i))).collect())),
+        (Shape::Map(Box::new(Shape::I16), Box::new(Shape::Str)), Dyn::Map((0..17).map(|i| (Dyn::Int(((i * 5) % 17 - 8) as i128), Dyn::Str(format!("{i}")))).collect())),
+        (Shape::Seq(Box::new(Shape::U16)), Dyn::List((0..1500).map(|i| Dyn::Int(i % 65536)).collect())),
+        (Shape::Tup((0..16).map(|_| Shape::I8).collect()), Dyn::List((0..16).map(|i| Dyn::Int(i - 8)).collect())),
+        (Shape::Bytes, Dyn::Bytes((0..3000).map(|i| (i % 251) as u8).collect())),
+        (Shape::Str, Dyn::Str("<é'&>".repeat(700))),
+    ]
 }
 
 /// a shape close to `s` (for the cross-shape stream): widths, option wrappers, renamed variants …
@@ -1455,6 +1640,66 @@ const JSON_ANCHORS: &[&str] = &[
     "M 2 none i1 s61 i2",
     "M 2 L 1 i1 i1 s61 i2",
     "M 2 d9218868437227405312 i1 s61 i2",
+];
+
+/// deserialisation sources with entries no field names (ignored, but walked), keyed by name and by index
+const LDE_ANCHORS: &[&str] = &[
+    "M 2 s61 i1 s7a i2 ; struct T 1 a u8",
+    "M 2 s61 i1 s7a X ; struct T 1 a u8",
+    "M 2 s61 i1 s7a L 2 i1 X ; struct T 1 a u8",
+    "M 2 s61 i1 s7a M 1 s6b X ; struct T 1 a u8",
+    "M 2 s61 i1 s7a M 1 X i1 ; struct T 1 a u8",
+    "M 2 s61 i1 s7a O61 ; struct T 1 a u8",
+    "M 2 s61 i1 s7a Zos 2 i1 i2 ; struct T 1 a u8",
+    "M 2 s61 i1 s7a Zcn 2 i1 i2 ; struct T 1 a u8",
+    "M 2 s61 i1 s7a undef ; struct T 1 a u8",
+    "M 2 s61 i1 s7a y00ff ; struct T 1 a u8",
+    "M 2 s61 i1 s7a i340282366920938463463374607431768211455 ; struct T 1 a u8",
+    "M 2 s7a X s61 i1 ; struct T 1 a u8",
+    "M 2 u0 i1 u5 i7 ; struct T 1 a u8",
+    "M 2 u0 i1 u5 X ; struct T 1 a u8",
+    "M 2 u0 i1 u5 L 1 X ; struct T 1 a u8",
+    "M 2 u0 i1 y7a X ; struct T 1 a u8",
+    "M 2 u0 i1 y7a i2 ; struct T 1 a u8",
+    "M 1 s41 M 2 s61 i1 s7a X ; enum E 1 A vs 1 a u8",
+    "M 1 s41 M 2 s61 i1 s7a i9 ; enum E 1 A vs 1 a u8",
+    "M 1 s41 M 2 u0 i1 u7 X ; enum E 1 A vs 1 a u8",
+    "M 2 s61 X s7a i1 ; struct T 1 a opt u8",
+    "L 2 i1 X ; tup 1 u8",
+    "L 2 i1 X ; struct T 1 a u8",
+];
+
+/// values read back into a `Value`: the integer representations at their borders, nested containers,
+/// keys of every kind, what cannot be a source
+const VV_ANCHORS: &[&str] = &[
+    "u18446744073709551615",
+    "u9223372036854775808",
+    "u9223372036854775807",
+    "i-9223372036854775808",
+    "i340282366920938463463374607431768211455",
+    "i-170141183460469231731687303715884105728",
+    "i18446744073709551616",
+    "u0",
+    "i-1",
+    "d9221120237041090560",
+    "d9223372036854775808",
+    "undef",
+    "none",
+    "X",
+    "O61",
+    "S3c623e",
+    "y00ff",
+    "L 3 u18446744073709551615 undef S61",
+    "P 2 i1 L 1 P 0",
+    "M 3 u18446744073709551615 i1 s61 undef T L 1 u9223372036854775808",
+    "M 2 i1 s61 s31 s62",
+    "M 1 none i1",
+    "M 1 L 1 i1 i1",
+    "L 1 O61",
+    "L 1 X",
+    "Zos 3 i1 i2 i3",
+    "Zcn 2 i1 i2",
+    "Wwi 2 s61 i1 s62 u18446744073709551615",
 ];
 
 /// cross-shape anchors (serialise with the first shape, deserialise with the second): the error and
